@@ -4,6 +4,18 @@ ROOT = os.path.dirname(os.path.dirname(os.path.abspath(__file__)))
 BASE = json.load(open('/root/.vp/BASELINE.json'))['cmd'] if os.path.exists('/root/.vp/BASELINE.json') else ''
 
 CHECKS = {
+ "C03": ("bounded exhaustive enumeration of corpus programs and nesting-tree grammar through the real to_onnx, structural oracle on every export",
+         "Every corpus program at its own configuration (thorough: x opsets 21/24/newest) and every nesting word of length <=2 (3 thorough) over {while, fori, scan, cond, onnx_function, onnx_function(unique)} x 4 body variants x {concrete, symbolic} is exported; each returned model must pass onnx.checker(full), strict shape inference, ORT session creation (ORT's own kernel/opset gaps triaged by message) and an independent SSA/scope/function-arity walker.",
+         "onnx checker/inference and ORT loading are the validity oracles; exports that raise are outside the property.",
+         "DESIGN.md section 2, C03", "model_checking"),
+ "C09": ("bounded exhaustive enumeration: recursive element-type scan of all single-precision exports, differential execution of all all-float64 double-precision programs on non-f32-representable mantissas, x64-flag state matrix",
+         "(a) every single-precision corpus export and 14 constant-lattice programs scanned recursively for DOUBLE/COMPLEX128 in tensors, constants, casts, value_info and I/O; (b) every double-precision corpus variant whose JAX-x64 jaxpr is all-float64, plus the constant-lattice programs (constants in loop/cond/scan/function bodies), executed in ORT on inputs with non-f32 mantissas against eager JAX-x64 at 1e-9 relative; (c) x64 flag before==after for 2 start states x 2 flags x 3 outcomes.",
+         "eager JAX x64 as reference; only the 1e-9..1e-5 relative error band is attributed to precision (larger = C01).",
+         "DESIGN.md section 2, C09", "model_checking"),
+ "C11": ("bounded exhaustive enumeration of corpus programs x target opsets through the real to_onnx, schema/validity/equivalence oracle",
+         "Every corpus program x opsets {21,24,newest} (thorough: all of 21..newest): declared import equals the request (functions included); every node in every scope has an onnx.defs schema at that opset admitting its arity and attribute names; checker; ORT load/run where ORT supports it else the ONNX reference evaluator; outputs equal to the baseline-opset export (like-with-like evaluator). Raising is an explicit refusal.",
+         "installed onnx.defs define opset contents; cross-opset numeric agreement judged at rtol 1e-4.",
+         "DESIGN.md section 2, C11", "model_checking"),
  "C01": ("bounded exhaustive enumeration of corpus programs x value-lattice input patterns on the real to_onnx, differential against eager JAX",
          "Every registered plugin/example testcase of the working tree (expanded as the project's generator does) is exported by the real to_onnx in exporter processes and executed in ONNX Runtime for every combination of lattice input patterns (negative, zero, half-integer, tiny/large, index-edge integers, booleans); oracle processes evaluate the same callable in eager JAX (f32 and f64). Integers/bools bit-exact, floats within K*max(|j32-r64|, ulp32). All programs x all pattern combinations within the stated bounds are covered, none sampled.",
          "Eager JAX is the reference; ORT CPU kernels triaged by the ONNX reference evaluator; inputs outside the lattice and heavy examples (quick tier) not explored; documented preconditions (sorted bins) are respected by the generator.",
